@@ -19,6 +19,11 @@
   * `get_fru_multirecord_area` exists in two variants: `shipped = true` mirrors the pinned
     source (the inner `read_fru_data` calls do not pass `fru_id`, i.e. use the default 0);
     `shipped = false` is the intended behaviour.
+  * `_read_fru_area` exists in two variants: `lenChk = false` mirrors the pinned source (an area
+    length byte 0 makes the second `read_fru_data` a read of 0 bytes: no request, `b''` is handed
+    to the parser); `lenChk = true` is the source after fixes/C15-2.diff (`if count == 0: raise
+    DecodingError` behind the 5-byte read, no second read).  The harness PROBES which one the tree
+    under test has.
 -/
 import PyIpmi.Base.Outcome
 import PyIpmi.Base.Bytes
@@ -200,15 +205,18 @@ def getHeader {σ} (cfg : Cfg) (send : Send σ) (w : World σ) (id : Nat) : Res 
   | .ok data => ⟨r.w, parseHeader data⟩
   | e => ⟨r.w, castErr e⟩
 
-/-- `_read_fru_area(offset, fru_id)`: 5 header bytes, then `data[1] * 8` bytes. -/
-def readFruArea {σ} (cfg : Cfg) (send : Send σ) (w : World σ) (offset : Option Nat) (id : Nat) :
-    Res σ (List Nat) :=
+/-- `_read_fru_area(offset, fru_id)`: 5 header bytes, then `data[1] * 8` bytes
+(`lenChk`: `if count == 0: raise DecodingError` in between). -/
+def readFruArea {σ} (cfg : Cfg) (send : Send σ) (lenChk : Bool) (w : World σ) (offset : Option Nat)
+    (id : Nat) : Res σ (List Nat) :=
   let r := readFruData cfg send w offset 5 id
   match r.out with
   | .ok data =>
     match data[1]? with
     | none => ⟨r.w, .pyError "IndexError"⟩
-    | some b => readFruData cfg send r.w offset (b * 8) id
+    | some b =>
+      if lenChk && b * 8 == 0 then ⟨r.w, .decodingError⟩
+      else readFruData cfg send r.w offset (b * 8) id
   | e => ⟨r.w, e⟩
 
 inductive Area where
@@ -222,11 +230,11 @@ def Header.area (h : Header) : Area → Option Nat
 
 /-- `get_fru_chassis_area` / `get_fru_board_area` / `get_fru_product_area`: the bytes handed to
 the area parser. -/
-def getInfoArea {σ} (cfg : Cfg) (send : Send σ) (w : World σ) (a : Area) (id : Nat) :
+def getInfoArea {σ} (cfg : Cfg) (send : Send σ) (lenChk : Bool) (w : World σ) (a : Area) (id : Nat) :
     Res σ (List Nat) :=
   let h := getHeader cfg send w id
   match h.out with
-  | .ok hd => readFruArea cfg send h.w (hd.area a) id
+  | .ok hd => readFruArea cfg send lenChk h.w (hd.area a) id
   | e => ⟨h.w, castErr e⟩
 
 /-- The record-header walk of `get_fru_multirecord_area`; returns the accumulated `count`.
@@ -282,18 +290,18 @@ def optArea {σ} (present : Bool) (w : World σ) (f : World σ → Res σ (List 
   else ⟨w, .ok none⟩
 
 /-- `get_fru_inventory(fru_id)`. -/
-def getInventory {σ} (cfg : Cfg) (send : Send σ) (shipped : Bool) (w : World σ) (id : Nat) :
+def getInventory {σ} (cfg : Cfg) (send : Send σ) (shipped lenChk : Bool) (w : World σ) (id : Nat) :
     Res σ Inventory :=
   let h := getHeader cfg send w id
   match h.out with
   | .ok hd =>
-    let c := optArea hd.chassis.isSome h.w (fun w => getInfoArea cfg send w .chassis id)
+    let c := optArea hd.chassis.isSome h.w (fun w => getInfoArea cfg send lenChk w .chassis id)
     match c.out with
     | .ok ch =>
-      let b := optArea hd.board.isSome c.w (fun w => getInfoArea cfg send w .board id)
+      let b := optArea hd.board.isSome c.w (fun w => getInfoArea cfg send lenChk w .board id)
       match b.out with
       | .ok bo =>
-        let p := optArea hd.product.isSome b.w (fun w => getInfoArea cfg send w .product id)
+        let p := optArea hd.product.isSome b.w (fun w => getInfoArea cfg send lenChk w .product id)
         match p.out with
         | .ok pr =>
           let m := optArea hd.multi.isSome p.w (fun w => getMultirecord cfg send shipped w id)
